@@ -1,3 +1,399 @@
-import TraitsVerif.Model.Adapt
+/-
+C17 — adaptation finds an adapter chain iff one exists, and a shortest one.
+
+Only property theorems (+ full-strength statements kept as `def … : Prop` where the
+code does not satisfy them, their negation witnesses, and non-vacuity examples).
+Model: `Model/Adapt.lean`; vocabulary (`ValidChain`, `SucceedsFrom`, `Deterministic`,
+`Homogeneous`, `OneStep`, `WeakOn`): `Lemmas/AdaptSpec.lean`, `Lemmas/AdaptExtra.lean`.
+-/
+import TraitsVerif.Lemmas.AdaptWitness
 namespace TraitsVerif.Props.C17
+open TraitsVerif TraitsVerif.Model.Adapt TraitsVerif.Lemmas.Adapt
+variable {α : Type}
+
+/-! ## identity -/
+
+/-- An adaptee (other than the object `None`) whose type already provides the
+protocol is returned unchanged, and no factory is called. -/
+theorem C17_identity (cfg : Cfg) (f : Factory α) (srcType : Nat) (adaptee : α) (target : Nat)
+    (hasDefault : Bool) (hp : cfg.provides srcType target = true) :
+    adapt cfg f false srcType adaptee target hasDefault = (.self, []) ∧
+    supportsProtocol cfg f false srcType adaptee target = (.ok true, []) := by
+  simp [adapt, supportsProtocol, hp]
+
+/-- Full strength: *every* adaptee.  False for the object `None` (finding F15). -/
+def C17_identity_full : Prop :=
+  ∀ (cfg : Cfg) (f : Factory Unit) (isNone : Bool) (srcType target : Nat) (hasDefault : Bool),
+    cfg.provides srcType target = true →
+    (adapt cfg f isNone srcType () target hasDefault).1 = .self
+
+/-- `adapt(None, object)` raises AdaptationError although `None` provides `object`. -/
+theorem C17_identity_fails_at : ¬ C17_identity_full := by
+  intro h
+  have := h ⟨fun _ _ => true, fun _ => [], []⟩ okFactory true 0 0 false rfl
+  simp [adapt, noneResult] at this
+
+example : (adapt (α := Unit) ⟨fun _ _ => true, fun _ => [], []⟩ okFactory true 0 () 0 false).1 =
+    .error .adaptationError := by decide
+
+/-! ## soundness -/
+
+/-- Whatever the factories do (deterministic or not, raising or not): if `adapt`
+returns an adapter, the adaptee's type did not provide the protocol, the chain of
+offers used is applicable step by step, uses every offer at most once, ends at a
+protocol providing the target, and the adapter is what the chain's factories
+produced, each one having succeeded. -/
+theorem C17_sound {cfg : Cfg} {f : Factory α} {isNone : Bool} {srcType : Nat} {adaptee : α}
+    {target : Nat} {hasDefault : Bool} {path : List Offer} {a : α} {tr : List CallRec}
+    (hh : Homogeneous cfg)
+    (h : adapt cfg f isNone srcType adaptee target hasDefault = (.adapted path a, tr)) :
+    cfg.provides srcType target = false ∧ ValidChain cfg srcType target path ∧
+      ∃ k, SucceedsFrom f k path adaptee a := by
+  unfold adapt at h
+  by_cases hp : cfg.provides srcType target = true
+  · simp only [hp, if_true] at h
+    cases isNone <;> simp [noneResult] at h
+    all_goals (split at h <;> simp at h)
+  · have hp' : cfg.provides srcType target = false := by simpa using hp
+    simp only [hp', Bool.false_eq_true, if_false] at h
+    rcases hin : adaptInner cfg f srcType adaptee target with ⟨r, tr'⟩
+    rw [hin] at h
+    cases r with
+    | found p a' =>
+      simp only [Prod.mk.injEq, Out.adapted.injEq] at h
+      obtain ⟨⟨rfl, rfl⟩, _⟩ := h
+      unfold adaptInner at hin
+      obtain ⟨hc, tr'', hw⟩ := adaptLoop_sound (cfg := cfg) (src := srcType) _ _ (by
+        intro e he
+        simp only [initSt, List.mem_singleton] at he
+        subst he
+        exact ⟨Reach.nil, rfl, rfl⟩) _ _ _ hin
+      exact ⟨hp', hc.valid hh, _, (walk_done_iff f _ _ _ _).1 hw⟩
+    | raised e => simp at h
+    | notFound => cases hasDefault <;> simp [noneResult] at h
+    | outOfFuel => simp at h
+
+/-- Without the naming precondition soundness is false (finding F16): with two
+protocols sharing a bucket, an offer is applied to a type that does not provide its
+`from_protocol`. -/
+def C17_sound_any_registry : Prop :=
+  ∀ (cfg : Cfg) (f : Factory Unit) (srcType target : Nat) (path : List Offer) (a : Unit)
+    (tr : List CallRec),
+    adapt cfg f false srcType () target false = (.adapted path a, tr) →
+    ValidChain cfg srcType target path
+
+theorem C17_sound_needs_homogeneous : ¬ C17_sound_any_registry := by
+  intro h
+  have hv := h collideCfg okFactory 0 2 [⟨1, 1, 2, 0⟩] () [⟨1, .ok⟩] (by decide)
+  have := hv.applicable
+  simp [Applicable, collideCfg, providesOf] at this
+
+example : adapt chainCfg (refusing [0]) false 3 () 2 false =
+    (.adapted [⟨1, 0, 1, 0⟩, ⟨2, 1, 2, 1⟩] (), [⟨0, .none⟩, ⟨1, .ok⟩, ⟨2, .ok⟩]) := by decide
+
+/-! ## completeness -/
+
+/-- With factories that are functions of (offer, adaptee) and do not raise, `_adapt`
+returns `None` exactly when no applicable, offer-simple chain from the adaptee's type
+to the protocol has factories that all succeed. -/
+theorem C17_complete {cfg : Cfg} {f : Factory α} {srcType : Nat} {adaptee : α} {target : Nat}
+    (hdet : Deterministic f) (hnr : NoRaise f) (hh : Homogeneous cfg) :
+    (adaptInner cfg f srcType adaptee target).1 = .notFound ↔
+      ¬ ∃ chain a, ValidChain cfg srcType target chain ∧ SucceedsFrom f 0 chain adaptee a := by
+  constructor
+  · intro h
+    rintro ⟨chain, a, hv, hs⟩
+    rcases hin : adaptInner cfg f srcType adaptee target with ⟨r, tr⟩
+    rw [hin] at h
+    simp only at h
+    subst h
+    unfold adaptInner at hin
+    have hdone := (adaptLoop_spec (src := srcType) hdet _ _ (Inv.init cfg srcType target f adaptee)).1 _ hin
+    obtain ⟨c, hc, hpre⟩ := exists_cand_prefix hh chain [] Reach.nil hv.nonempty
+      (by simpa using hv.applicable) (by simpa using hv.simple) (by simpa using hv.arrives)
+    obtain ⟨t, ht⟩ := hpre
+    simp only [List.nil_append] at ht
+    rw [← ht] at hs
+    obtain ⟨r', hr'⟩ := SucceedsFrom_prefix c t 0 adaptee a hs
+    obtain ⟨p, d, o, rfl, hrp, hk, ha⟩ := hc
+    exact hdone p hrp d o hk ha ⟨r', hr'⟩
+  · intro hne
+    rcases hin : adaptInner cfg f srcType adaptee target with ⟨r, tr⟩
+    cases r with
+    | notFound => rfl
+    | found p a =>
+      exfalso
+      unfold adaptInner at hin
+      obtain ⟨hc, tr', hw⟩ := adaptLoop_sound (cfg := cfg) (src := srcType) _ _ (by
+        intro e he
+        simp only [initSt, List.mem_singleton] at he
+        subst he
+        exact ⟨Reach.nil, rfl, rfl⟩) _ _ _ hin
+      exact hne ⟨p, a, hc.valid hh, SucceedsFrom_det hdet _ _ _ _ _ ((walk_done_iff f _ _ _ _).1 hw)⟩
+    | raised e =>
+      exfalso
+      obtain ⟨k, o, a', hf⟩ := adaptLoop_raised cfg f adaptee target _ _ e (by
+        unfold adaptInner at hin; rw [hin])
+      exact hnr k o a' e hf
+    | outOfFuel =>
+      exfalso
+      exact fuel_suffices cfg f srcType adaptee target (by rw [hin])
+
+/-- The same at the level of `adapt`: an adapter comes back iff a successful chain exists. -/
+theorem C17_complete_adapt {cfg : Cfg} {f : Factory α} {isNone : Bool} {srcType : Nat} {adaptee : α}
+    {target : Nat} {hasDefault : Bool}
+    (hdet : Deterministic f) (hnr : NoRaise f) (hh : Homogeneous cfg)
+    (hp : cfg.provides srcType target = false) :
+    (∃ path a, (adapt cfg f isNone srcType adaptee target hasDefault).1 = .adapted path a) ↔
+      ∃ chain a, ValidChain cfg srcType target chain ∧ SucceedsFrom f 0 chain adaptee a := by
+  have hc := C17_complete (cfg := cfg) (f := f) (srcType := srcType) (adaptee := adaptee)
+    (target := target) hdet hnr hh
+  unfold adapt
+  simp only [hp, Bool.false_eq_true, if_false]
+  rcases hin : adaptInner cfg f srcType adaptee target with ⟨r, tr⟩
+  rw [hin] at hc
+  cases r with
+  | notFound =>
+    have := hc.1 rfl
+    constructor
+    · rintro ⟨p, a, h⟩; cases hasDefault <;> simp [noneResult] at h
+    · intro h; exact absurd h this
+  | found p a =>
+    constructor
+    · intro _
+      apply Classical.byContradiction
+      intro hne
+      have := hc.2 hne
+      simp at this
+    · intro _; exact ⟨p, a, rfl⟩
+  | raised e =>
+    exfalso
+    obtain ⟨k, o, a', hf⟩ := adaptLoop_raised cfg f adaptee target _ _ e (by
+      unfold adaptInner at hin; rw [hin])
+    exact hnr k o a' e hf
+  | outOfFuel =>
+    exfalso
+    exact fuel_suffices cfg f srcType adaptee target (by rw [hin])
+
+example : (adaptInner chainCfg (refusing [0, 2]) 3 () 2).1 = .notFound := by decide
+example : (adaptInner chainCfg (refusing [0]) 3 () 2).1 ≠ .notFound := by decide
+
+/-! ## minimality -/
+
+/-- The returned chain has the minimum number of adapters among all valid chains
+whose factories succeed. -/
+theorem C17_minimal {cfg : Cfg} {f : Factory α} {srcType : Nat} {adaptee : α} {target : Nat}
+    (hdet : Deterministic f) (hh : Homogeneous cfg) {path : List Offer} {a : α} {tr : List CallRec}
+    (h : adaptInner cfg f srcType adaptee target = (.found path a, tr)) :
+    ∀ chain a', ValidChain cfg srcType target chain → SucceedsFrom f 0 chain adaptee a' →
+      path.length ≤ chain.length := by
+  intro chain a' hv hs
+  unfold adaptInner at h
+  obtain ⟨_, _, hmin, _⟩ :=
+    (adaptLoop_spec (src := srcType) hdet _ _ (Inv.init cfg srcType target f adaptee)).2 _ _ _ h
+  obtain ⟨c, hc, hpre⟩ := exists_cand_prefix hh chain [] Reach.nil hv.nonempty
+    (by simpa using hv.applicable) (by simpa using hv.simple) (by simpa using hv.arrives)
+  have hlen : c.length ≤ chain.length := by simpa using hpre.length_le
+  obtain ⟨t, ht⟩ := hpre
+  simp only [List.nil_append] at ht
+  rw [← ht] at hs
+  obtain ⟨r', hr'⟩ := SucceedsFrom_prefix c t 0 adaptee a' hs
+  have := hmin c hc (fun hf => hf ⟨r', hr'⟩)
+  omega
+
+example : adaptInner chainCfg (refusing [0]) 3 () 2 =
+    (.found [⟨1, 0, 1, 0⟩, ⟨2, 1, 2, 1⟩] (), [⟨0, .none⟩, ⟨1, .ok⟩, ⟨2, .ok⟩]) := by decide
+
+/-! ## specificity -/
+
+/-- Among the offers that adapt in one step and whose factory accepts, the one
+used has the smallest MRO distance from the adaptee's type to its `from_protocol`. -/
+theorem C17_specific {cfg : Cfg} {f : Factory α} {srcType : Nat} {adaptee : α} {target : Nat}
+    (hdet : Deterministic f) (hh : Homogeneous cfg) {o : Offer} {a : α} {tr : List CallRec}
+    (h : adaptInner cfg f srcType adaptee target = (.found [o] a, tr))
+    {o' : Offer} (h' : OneStep cfg f srcType adaptee target o') :
+    ∃ d d', dist cfg srcType o.frm = some d ∧ dist cfg srcType o'.frm = some d' ∧ d ≤ d' := by
+  have H : Compat (edgeLt cfg) (fun e1 e2 : Edge => e1.1 < e2.1) (fun _ => True) := by
+    refine ⟨?_, ?_, ?_⟩
+    · intro a b c _ _ _ hab
+      show a.1 < c.1 ∨ c.1 < b.1
+      have : a.1 < b.1 := hab
+      omega
+    · intro a b _ _ hlt
+      simp only [edgeLt, Bool.or_eq_true, Bool.and_eq_true, decide_eq_true_eq, beq_iff_eq] at hlt
+      show ¬ b.1 < a.1
+      omega
+    · intro a b _ _ hlt
+      have : ¬ (edgeLt cfg a b = true) := by simp [hlt]
+      simp only [edgeLt, Bool.or_eq_true, Bool.and_eq_true, decide_eq_true_eq, beq_iff_eq] at this
+      show ¬ a.1 < b.1
+      omega
+  obtain ⟨d, d', hd, hd', hor⟩ := one_step_order H (fun _ _ => trivial) hdet hh h h'
+  refine ⟨d, d', hd, hd', ?_⟩
+  rcases hor with heq | hn
+  · simp only [Prod.mk.injEq] at heq; omega
+  · have : ¬ d' < d := hn
+    omega
+
+/-- Full strength of the second clause: at equal distance an offer registered for a
+strict subclass is preferred.  False (finding F14). -/
+def C17_specific_subclass_full : Prop :=
+  ∀ (cfg : Cfg) (f : Factory Unit) (srcType target : Nat) (o : Offer) (a : Unit) (tr : List CallRec)
+    (o' : Offer),
+    Deterministic f → Homogeneous cfg →
+    adaptInner cfg f srcType () target = (.found [o] a, tr) →
+    OneStep cfg f srcType () target o' →
+    dist cfg srcType o'.frm = dist cfg srcType o.frm →
+    ¬ (o'.frm ≠ o.frm ∧ cfg.provides o'.frm o.frm = true)
+
+/-- Foo provides IChild(IBase) and IOther; offers registered IBase→T, IOther→T,
+IChild→T: the IBase offer is used. -/
+theorem C17_specific_fails_at : ¬ C17_specific_subclass_full := by
+  intro h
+  have := h specCfg okFactory 3 4 ⟨0, 0, 4, 0⟩ () [⟨0, .ok⟩] ⟨2, 1, 4, 1⟩ okFactory_det
+    specCfg_homogeneous (by decide)
+    ⟨⟨[⟨2, 1, 4, 1⟩], by simp [specCfg], by simp⟩, by decide, by decide, ⟨(), rfl⟩⟩ (by decide)
+  exact this ⟨by decide, by decide⟩
+
+/-- What does hold: when the comparison is a strict weak order on the offers
+applicable to the adaptee's type (e.g. their `from_protocol`s at each distance are
+totally ordered by `issubclass`, or pairwise unrelated), an offer for a strict
+subclass at the same distance is never passed over. -/
+theorem C17_specific_subclass_partial {cfg : Cfg} {f : Factory α} {srcType : Nat} {adaptee : α}
+    {target : Nat} (hdet : Deterministic f) (hh : Homogeneous cfg)
+    (hw : WeakOn cfg (applicable cfg srcType []))
+    {o : Offer} {a : α} {tr : List CallRec}
+    (h : adaptInner cfg f srcType adaptee target = (.found [o] a, tr))
+    {o' : Offer} (h' : OneStep cfg f srcType adaptee target o')
+    (heq : dist cfg srcType o'.frm = dist cfg srcType o.frm) :
+    ¬ (o'.frm ≠ o.frm ∧ cfg.provides o'.frm o.frm = true) := by
+  have H : Compat (edgeLt cfg) (fun e1 e2 : Edge => edgeLt cfg e1 e2 = true)
+      (fun e => e ∈ applicable cfg srcType []) := by
+    refine ⟨?_, ?_, ?_⟩
+    · intro a b c ha hb hc hab; exact hw.1 a ha b hb c hc hab
+    · intro a b ha hb hlt hba; rw [hw.2 a ha b hb hlt] at hba; cases hba
+    · intro a b _ _ hlt hab; rw [hlt] at hab; cases hab
+  obtain ⟨d, d', hd, hd', hor⟩ := one_step_order H (fun _ hx => hx) hdet hh h h'
+  rintro ⟨hne, hsub⟩
+  rw [hd, hd'] at heq
+  simp only [Option.some.injEq] at heq
+  subst heq
+  rcases hor with heq | hn
+  · simp only [Prod.mk.injEq] at heq
+    exact hne (by rw [heq.2])
+  · apply hn
+    simp [edgeLt, hne, hsub]
+
+example : WeakOn chainCfg (applicable chainCfg 3 []) := by
+  refine ⟨?_, ?_⟩ <;> decide
+
+/-! ## failure result -/
+
+/-- `_adapt` found nothing: `adapt` raises AdaptationError, or returns the supplied
+default; `supports_protocol` is False. -/
+theorem C17_default {cfg : Cfg} {f : Factory α} {isNone : Bool} {srcType : Nat} {adaptee : α}
+    {target : Nat} (hp : cfg.provides srcType target = false)
+    (hnf : (adaptInner cfg f srcType adaptee target).1 = .notFound) :
+    (adapt cfg f isNone srcType adaptee target false).1 = .error .adaptationError ∧
+    (adapt cfg f isNone srcType adaptee target true).1 = .default ∧
+    (supportsProtocol cfg f isNone srcType adaptee target).1 = .ok false := by
+  rcases hin : adaptInner cfg f srcType adaptee target with ⟨r, tr⟩
+  rw [hin] at hnf
+  simp only at hnf
+  subst hnf
+  simp [adapt, supportsProtocol, hp, hin, noneResult]
+
+/-- …and the default comes back in no other situation (apart from the `None`
+adaptee of F15). -/
+theorem C17_default_only {cfg : Cfg} {f : Factory α} {isNone : Bool} {srcType : Nat} {adaptee : α}
+    {target : Nat} {hasDefault : Bool}
+    (h : (adapt cfg f isNone srcType adaptee target hasDefault).1 = .default) :
+    hasDefault = true ∧
+      ((cfg.provides srcType target = true ∧ isNone = true) ∨
+       (cfg.provides srcType target = false ∧
+        (adaptInner cfg f srcType adaptee target).1 = .notFound)) := by
+  unfold adapt at h
+  by_cases hp : cfg.provides srcType target = true
+  · simp only [hp, if_true] at h
+    cases isNone <;> cases hasDefault <;> simp [noneResult] at h
+    exact ⟨rfl, Or.inl ⟨hp, rfl⟩⟩
+  · have hp' : cfg.provides srcType target = false := by simpa using hp
+    simp only [hp', Bool.false_eq_true, if_false] at h
+    rcases hin : adaptInner cfg f srcType adaptee target with ⟨r, tr⟩
+    rw [hin] at h
+    cases r <;> cases hasDefault <;> simp [noneResult] at h
+    exact ⟨rfl, Or.inr ⟨hp', rfl⟩⟩
+
+/-! ## Supports / AdaptsTo / Instance(adapt=…) -/
+
+/-- The validator of an adapting trait, mode by mode, for a value whose `isinstance`
+agrees with `issubclass(type(value), klass)`:
+* `None` is decided by `allow_none` alone (modes 1, 2);
+* mode 0 (`adapt='no'`) is the isinstance check, and `adapt` is not called;
+* modes 1 and 2 hand back exactly what `adapt(value, klass, None)` gives — the value
+  itself if it provides the protocol, the adapter otherwise, the factory's exception
+  if one raised — and, when `adapt` found nothing, TraitError (mode 1) or the trait's
+  default value (mode 2). -/
+theorem C17_supports (cfg : Cfg) (f : Factory α) (srcType : Nat) (adaptee : α) (target : Nat)
+    (allowNone : Bool) (isInst : Bool) (ad : Out α) (mode : Nat) (hm : mode = 1 ∨ mode = 2) :
+    validateTrait mode allowNone true isInst ad = (if allowNone then .value else .error .traitError) ∧
+    validateTrait 0 allowNone false (cfg.provides srcType target) ad =
+      (if cfg.provides srcType target then .value else .error .traitError) ∧
+    validateCalls 0 false = false ∧
+    validateTrait mode allowNone false (cfg.provides srcType target)
+        (adapt cfg f false srcType adaptee target true).1 =
+      (match (adapt cfg f false srcType adaptee target true).1 with
+       | .self => .value
+       | .adapted p a => .adapted p a
+       | .error e => .error e
+       | .default => if mode = 1 then .error .traitError else .default) := by
+  refine ⟨?_, ?_, rfl, ?_⟩
+  · rcases hm with rfl | rfl <;> simp [validateTrait, validateAdapt]
+  · simp [validateTrait, validateInstance]
+  · by_cases hp : cfg.provides srcType target = true
+    · rcases hm with rfl | rfl <;> simp [validateTrait, validateAdapt, adapt, hp]
+    · have hp' : cfg.provides srcType target = false := by simpa using hp
+      rcases hm with rfl | rfl <;>
+        (simp only [validateTrait, validateAdapt, hp']
+         cases (adapt cfg f false srcType adaptee target true).1 <;> simp)
+
+/-- The C function's own fallback (`validate_trait_adapt`, ctraits.c:3966-3982): when
+`adapt` gives `None`, an instance is still accepted as is; `Supports` keeps the
+validated value under `name` and the original under `name_`, `AdaptsTo` the reverse. -/
+theorem C17_supports_fallback (allowNone : Bool) (mode : Nat) (hm : mode = 1 ∨ mode = 2) :
+    validateAdapt (α := α) mode allowNone false true .default = .value ∧
+    validateAdapt (α := α) mode allowNone false false .default =
+      (if mode = 1 then .error .traitError else .default) ∧
+    (∀ v : VOut α, stored false v = v ∧ shadow true v = .value) ∧
+    (∀ v : VOut α, stored true v = .value ∧ shadow false v = v) := by
+  rcases hm with rfl | rfl <;> simp [validateAdapt, stored, shadow]
+
+/-! ## the model's two CPython pieces and termination -/
+
+/-- `_adapt` as modelled never runs out of fuel: the `while` loop terminates (every
+offer-simple path is pushed at most once; `fuelFor = 1 + Σₖ n!/(n−k)!`). -/
+theorem C17_terminates (cfg : Cfg) (f : Factory α) (srcType : Nat) (adaptee : α) (target : Nat) :
+    (adaptInner cfg f srcType adaptee target).1 ≠ .outOfFuel :=
+  fuel_suffices cfg f srcType adaptee target
+
+/-- In every state the loop goes through, the model's sorted list pops exactly what
+a min-heap holding the same entries pops: the queue is sorted, its counters are
+pairwise distinct, hence (`heap_is_sorted_list`) any minimal entry of any
+arrangement of the contents is the list's head. -/
+theorem C17_queue_is_heap {cfg : Cfg} {f : Factory α} {adaptee : α} {target src : Nat} {st : St}
+    (hrun : Run cfg f adaptee target src st)
+    (heap : List Entry) (hperm : heap.Perm st.queue)
+    (m : Entry) (rest : List Entry) (hpop : heap.Perm (m :: rest))
+    (hmin : ∀ e ∈ rest, keyLt e m = false) :
+    ∃ q', st.queue = m :: q' ∧ rest.Perm q' :=
+  heap_is_sorted_list st.queue heap hperm hrun.sorted hrun.cntInv.2 m rest hpop hmin
+
+/-- `list.sort` as modelled permutes its input whatever the comparison does (so the
+order-independent theorems above hold for any sort), and distinct names give
+homogeneous buckets (the precondition of the theorems, from `register_offer`). -/
+theorem C17_model_facts (cfg : Cfg) (es : List Edge) (os : List Offer)
+    (hnames : ∀ o ∈ os, ∀ o' ∈ os, o.key = o'.key → o.frm = o'.frm) :
+    (pySort (edgeLt cfg) es).Perm es ∧ Homogeneous ⟨cfg.provides, cfg.supers, groupsOf os⟩ :=
+  ⟨pySort_perm _ _, groupsOf_homogeneous os hnames _ _⟩
+
 end TraitsVerif.Props.C17
